@@ -877,9 +877,24 @@ class Merger:
         # Loop through all insertion points and the elements in RHS
         nodes: List[NodeCoords] = []
         seen_containers: set = set()
-        for node_coord in lhs_proc.get_nodes(
-            insert_at, default_value=rhs
-        ):
+        found_nodes: List[Any] = list(lhs_proc.get_nodes(
+            insert_at, default_value=rhs))
+        found_nodes.reverse()
+        while found_nodes:
+            node_coord = found_nodes.pop()
+
+            # Array slices and Collectors relay a list of the nodes they
+            # gathered; each of those is a target, not the list.
+            if (isinstance(node_coord.node, list)
+                and len(node_coord.node) > 0
+                and isinstance(node_coord.node[0], NodeCoords)
+            ):
+                found_nodes.extend(reversed(node_coord.node))
+                continue
+            if isinstance(node_coord.node, NodeCoords):
+                found_nodes.append(node_coord.node)
+                continue
+
             # A Hash, Array, or Set reached more than once -- through an Alias
             # or a path which revisits it -- is one node; merge into it once.
             target_node = node_coord.node
